@@ -35,7 +35,9 @@ W1 = {"name": "w1", "ignore": "packaged/\n", "package_dir": None, "buildpacks": 
     # both buildpacks have an additional binary target of the same name (different code): the
     # workspace's shared target directory holds only the one built last
     {"id": "verif/a", "dir": "buildpacks/a", "kind": "libcnb", "pkg": "bp-a", "bins": ["bp-a", "extra1"]},
-    {"id": "verif/b", "dir": "buildpacks/b", "kind": "libcnb", "pkg": "bp-b", "bins": ["bp-b", "extra1"]},
+    # a libcnb.rs buildpack that ships its own package.toml with a libcnb: dependency: packaging it
+    # (also from its own directory) packages the dependency too; its packaged package.toml is the default one
+    {"id": "verif/b", "dir": "buildpacks/b", "kind": "libcnb", "pkg": "bp-b", "bins": ["bp-b", "extra1"], "deps": ["libcnb:verif/a"]},
     {"id": "verif/meta", "dir": "meta/m", "kind": "composite", "platform": "windows", "deps": ["libcnb:verif/a", "libcnb:verif/b", "docker://docker.io/heroku/procfile-cnb:1.0"]},
     {"id": "verif/other", "dir": "other/o", "kind": "other"},
 ]}
@@ -94,6 +96,8 @@ def generate(ws, root):
                     open(os.path.join(d, "src", "main.rs"), "w").write(body)
                 else:
                     open(os.path.join(d, "src", "bin", f"{b}.rs"), "w").write(body)
+            if bp.get("deps"):
+                open(os.path.join(d, "package.toml"), "w").write('[buildpack]\nuri = "."\n' + "".join(f'\n[[dependencies]]\nuri = "{dep}"\n' for dep in bp["deps"]))
         elif bp["kind"] == "composite":
             p = '[buildpack]\nuri = "."\n' + "".join(f'\n[[dependencies]]\nuri = "{dep}"\n' for dep in bp["deps"])
             if bp.get("platform"):
